@@ -769,12 +769,13 @@ fn grid(tier: Tier) -> Vec<CacheCfg> {
     let mut v = vec![];
     for policy in [EvictionPolicy::Lru, EvictionPolicy::Lfu, EvictionPolicy::Fifo] {
         for max_size in [1usize, 2] {
-            for ttl in [None, Some(20), Some(50), Some(1500)] {
+            // TTL: none, zero (everything is expired as soon as it has any age), 20 ms, 50 ms, 1.5 s
+            for ttl in [None, Some(0), Some(20), Some(50), Some(1500)] {
                 for shared in [false, true] {
                     if tier == Tier::Quick && shared && ttl == Some(50) {
                         continue;
                     }
-                    if ttl == Some(1500) && (shared || (tier == Tier::Quick && max_size == 2)) {
+                    if (ttl == Some(1500) || ttl == Some(0)) && (shared || (tier == Tier::Quick && max_size == 2)) {
                         continue;
                     }
                     v.push(CacheCfg { policy, max_size, ttl, shared, keys: 3 });
